@@ -360,9 +360,9 @@ func BlockBoundaries(img []byte, nlen int) (bounds []int, nblocks int) {
 
 // FileImages replays observed operations on the volatile and the durable byte image.
 type FileImages struct {
-	Vol, Dur       []byte
-	VolOK, DurOK   bool // file exists
-	SegEnds        []int // end offsets of the appends that make up Vol (region boundaries)
+	Vol, Dur     []byte
+	VolOK, DurOK bool  // file exists
+	SegEnds      []int // end offsets of the appends that make up Vol (region boundaries)
 }
 
 func (f *FileImages) Apply(o Op) {
